@@ -195,6 +195,11 @@ def run_harness(variant, args, env=None, timeout=900, stdin=None):
     e.pop("IPC_VERIF_SENDBUF", None)
     if env:
         e.update({k: str(v) for k, v in env.items()})
+    if "IPC_VERIF_TRACE" in e and "IPC_VERIF_SEQ" not in e:
+        # one sequence counter shared by the harness process and every child it spawns
+        e["IPC_VERIF_SEQ"] = e["IPC_VERIF_TRACE"] + ".seq"
+        if os.path.exists(e["IPC_VERIF_SEQ"]):
+            os.remove(e["IPC_VERIF_SEQ"])
     try:
         p = subprocess.run([harness_bin(variant)] + [str(a) for a in args], env=e, input=stdin,
                            stdout=subprocess.PIPE, stderr=subprocess.PIPE, timeout=timeout, text=True,
